@@ -185,6 +185,18 @@ func LoadPrelude(dir string, auto string, groups map[string][]string) (*Prelude,
 			p.items = append(p.items, it)
 		}
 	}
+	// companion symbols: a declared symbol named <sym>.<suffix> where <sym> is itself a prelude symbol
+	// (skolem / witness functions that occur only in axioms about <sym>) accompanies <sym>
+	for name := range p.bySym {
+		if i := strings.LastIndex(name, "."); i > 0 {
+			if owner := name[:i]; p.bySym[owner] != nil && !p.bySym[owner].isSort {
+				if p.groups == nil {
+					p.groups = map[string][]string{}
+				}
+				p.groups[owner] = append(p.groups[owner], name)
+			}
+		}
+	}
 	for _, it := range p.items {
 		seen := map[string]bool{}
 		for _, t := range tokenize(it.text) {
@@ -209,6 +221,10 @@ func (p *Prelude) Slice(body string) string {
 			for _, g := range p.groups[s] {
 				add(g)
 			}
+			// definitional axioms (`(assert (! ... :named def.<sym>))`) travel with <sym> (prelude_defs.go)
+			for _, u := range p.defUses(s) {
+				add(u)
+			}
 		}
 	}
 	for _, t := range tokenize(body) {
@@ -230,7 +246,10 @@ func (p *Prelude) Slice(body string) string {
 			}
 			ok := true
 			for _, u := range it.uses {
-				if !need[u] && !p.bySym[u].isSort {
+				// type-tag constants (tag.<type>, generated define-funs) never block an axiom: queries
+				// mention tags by number, so an axiom keyed on a tag must not wait for the symbol. Likewise
+				// define-fun'd helpers (pure abbreviations) are pulled in rather than waited for.
+				if !need[u] && !p.bySym[u].isSort && !strings.HasPrefix(u, "tag.") && !strings.HasPrefix(p.bySym[u].text, "(define-fun") {
 					ok = false
 					break
 				}
